@@ -179,7 +179,7 @@ BUILTINS_REQUIRED = ['Range', 'Size', 'Element', 'l[i]', 'in', 'in(generator)',
                      '-(unary)', '==', '!=', '<', '<=', '>', '>=']
 
 
-def BuiltinCases(tier, rng, batch=16, singles_per_op=2):
+def BuiltinCases(tier, rng, batch=20, singles_per_op=2):
   """-> list of semrun cases; meta.calls = {builtin: number of calls}."""
   calls = BuiltinCalls(tier)
   by_op = {}
@@ -343,7 +343,7 @@ def PairSequences(tier, rng):
             continue
           arr = rng.sample(arr, 1)
         elif tier != 'thorough' and n == 3:
-          arr = rng.sample(arr, 2)
+          arr = rng.sample(arr, 2 if li == j % 2 else 1)
         for a in arr:
           out.append(list(a))
         if n == 0:
@@ -387,8 +387,8 @@ def AggCases(tier, rng):
   cases = []
   for i, s in enumerate(seqs):
     # quick: the string domain on every arrangement up to 2 rows and on every
-    # third longer one
-    strings = tier == 'thorough' or len(s) <= 2 or i % 3 == 0
+    # sixth longer one
+    strings = tier == 'thorough' or len(s) <= 2 or i % 6 == 0
     cases.append(ScalarAggCase(s, strings))
   cases += [PairAggCase(r, i) for i, r in enumerate(PairSequences(tier, rng))]
   for c in cases:
